@@ -163,6 +163,10 @@ def main(ctx):
         's_prf_ignored': dict(part='encoding',
                               variant='PrfIgnoredWithKeyLength',
                               invariants=['EncSound']),
+        'passval': dict(part='passval', emit=True, bcrypt=bcrypt,
+                        invariants=['TypeOK', 'PassSound', 'EmitRows']),
+        's_empty_means_none': dict(part='passval', variant='EmptyMeansNone',
+                                   bcrypt=bcrypt, invariants=['PassSound']),
         's_any_hash': dict(part='priv', variant='any_hash', bcrypt=bcrypt,
                            invariants=['TableEquiv']),
         's_stop_at_junk': dict(part='scanpriv', variant='stop_at_junk',
@@ -181,6 +185,7 @@ def main(ctx):
     expect = {'s_replace_on_continue': 'UnfoldOK',
               's_carry_enc_key': 'Independence',
               's_prf_ignored': 'EncSound',
+              's_empty_means_none': 'PassSound',
               's_any_hash': 'TableEquiv', 's_stop_at_junk': 'ScanEquiv',
               's_wrong_pass': 'RoundTrip'}
     for n, res in results.items():
@@ -188,7 +193,7 @@ def main(ctx):
                            expect_violation=expect.get(n))
     rows = {n: rows_of(results[n]) for n in
             ('priv', 'pub', 'scanpriv', 'scanpub', 'chain', 'layout',
-             'keylist', 'encoding')}
+             'keylist', 'encoding', 'passval')}
     for n, r in rows.items():
         ctx.require(len(r) > 50, f'{n}: only {len(r)} rows from TLC')
 
@@ -500,6 +505,10 @@ def main(ctx):
             keylists(ctx, D, scr, rows['keylist'], kts, quick, kf_sig, only)
         finally:
             scr.close()
+
+    # ---- 2h. passphrase values ---------------------------------------------------
+    if only.kind('passval'):
+        passvalues(ctx, D, rows['passval'], kts, quick, kf_sig, only)
 
     # ---- 2g. encoding choices of foreign writers --------------------------------
     if only.kind('encoding'):
@@ -918,6 +927,162 @@ def interop(ctx, D, scr, kts, quick, rnd, kf_sig):
     ctx.notes.append(f'independent readers/writers: {stats}')
 
 
+def passvalues(ctx, D, rows, kts, quick, kf_sig, only):
+    """The passphrase VALUE as a dimension: None <=> unencrypted file; any
+    other value (also the empty one) <=> a file encrypted under exactly that
+    value.  Observables: the exception of export, a structural look at the
+    file, PyCA loading it without / with the passphrase, asyncssh importing it
+    with the same / no / another / the other spelling of the passphrase."""
+    import asyncssh
+    stats = {'exports': 0, 'pyca_clear_reads': 0, 'pyca_enc_reads': 0,
+             'pyca_unsupported': 0}
+    cache = {}
+    for idx, (row, pexp, tail) in enumerate(rows):
+        if not only.row('passval', row):
+            continue
+        penc, pimp = tail
+        enc = row['enc']
+        fmt = enc['fmt']
+        kt = 'ec256' if fmt.startswith('pkcs1') or idx % 2 else 'ed25519'
+        if kt not in kts:
+            kt = 'ec256'
+        k = D.key(kt)
+        pv = D.PASS_VALUES[row['pv']]
+        case = dict(fmt=fmt, cipher=enc['cipher'], hash=enc['hash'],
+                    pbe=enc['pbe'], passphrase=row['pv'], kt=kt)
+        rp = {'kind': 'passval', 'row': row}
+        ck = (fmt, enc['cipher'], enc['hash'], enc['pbe'], row['pv'], kt)
+        ctx.count(('passval', ck, row['ipv']),
+                  nontrivial=row['pv'] != 'none')
+        if ck not in cache:
+            try:
+                data = k.export_private_key(fmt, pv, enc['cipher'],
+                                            enc['hash'], enc['pbe'])
+                cache[ck] = ('ok', data)
+            except Exception as exc:    # pylint: disable=broad-except
+                cache[ck] = (type(exc).__name__, None)
+            stats['exports'] += 1
+            got, data = cache[ck]
+            # --- export outcome
+            if pexp == 'ok' and got != 'ok':
+                ctx.violation(kf_sig('passval', step='export', **case),
+                              f'export with passphrase {row["pv"]} fails '
+                              f'({got}): {case}', rp)
+            elif pexp != 'ok' and got == 'ok':
+                ctx.violation(
+                    kf_sig('passval', step='export-not-refused', **case),
+                    f'a format that cannot encrypt here wrote a key although '
+                    f'a passphrase ({row["pv"]}) was given (expected {pexp}; '
+                    f'file encrypted: {D.looks_encrypted(data, fmt)}): '
+                    f'{case}', rp)
+            elif pexp != 'ok' and got != pexp:
+                ctx.divergence(f'passval: export raises {got}, model says '
+                               f'{pexp}: {case}')
+            if got == 'ok':
+                # --- is the file encrypted exactly when a passphrase was given
+                is_enc = D.looks_encrypted(data, fmt)
+                if is_enc != (row['pv'] != 'none'):
+                    ctx.violation(
+                        kf_sig('passval', step='encrypted', **case),
+                        f'passphrase {row["pv"]!r}: the exported file is '
+                        f'{"" if is_enc else "NOT "}encrypted: {case}',
+                        dict(rp, data=data[:200].decode('latin-1')))
+                # --- independent reader without a password
+                try:
+                    loaded = D.pyca_load_private(data, fmt, None)
+                    clear = D.pyca_private_der(loaded) == \
+                        D.pyca_private_der(k.pyca_key)
+                    stats['pyca_clear_reads'] += 1
+                except BaseException:   # pylint: disable=broad-except
+                    clear = False
+                if clear and row['pv'] != 'none':
+                    ctx.violation(
+                        kf_sig('passval', step='reader-no-password', **case),
+                        f'PyCA loads the key WITHOUT a password although it '
+                        f'was exported with passphrase {row["pv"]}: {case}',
+                        rp)
+                if not clear and row['pv'] == 'none' and \
+                        not (kt == 'ed448'):
+                    ctx.violation(
+                        kf_sig('passval', step='reader-clear', **case),
+                        f'PyCA cannot load the key exported without a '
+                        f'passphrase: {case}', rp)
+                # --- independent reader with exactly that passphrase
+                if row['pv'] != 'none' and \
+                        D.pyca_must_read(fmt, (enc['cipher'], enc['hash'],
+                                               enc['pbe'])) and \
+                        not (isinstance(pv, bytes) and enc['pbe'] == 1 and
+                             enc['cipher'] != 'des-cbc') and len(pv) > 0:
+                    pwb = pv.encode('utf-8') if isinstance(pv, str) else pv
+                    try:
+                        loaded = D.pyca_load_private(data, fmt, pwb)
+                        ok = D.pyca_private_der(loaded) == \
+                            D.pyca_private_der(k.pyca_key)
+                        stats['pyca_enc_reads'] += 1
+                        if not ok:
+                            ctx.violation(
+                                kf_sig('passval', step='reader-key', **case),
+                                f'PyCA reads a different key: {case}', rp)
+                    except BaseException as exc:  # pylint: disable=broad-except
+                        if row['pv'] in ('one', 'str', 'bytes_same',
+                                         'nonascii'):
+                            ctx.violation(
+                                kf_sig('passval', step='reader-passphrase',
+                                       **case),
+                                f'PyCA cannot decrypt the key with the '
+                                f'passphrase it was exported with '
+                                f'({type(exc).__name__}): {case}', rp)
+                        else:
+                            stats['pyca_unsupported'] += 1
+        got, data = cache[ck]
+        if got != 'ok' or pexp != 'ok':
+            continue
+        # --- import with the same / no / another / the other spelling
+        if row['ipv'] == 'same':
+            ip = pv
+        elif row['ipv'] == 'none':
+            ip = None
+        elif row['ipv'] == 'other':
+            ip = D.other_passphrase(pv)
+        else:
+            if pv is None or row['pv'] == 'highbytes':
+                continue
+            ip = D.other_spelling(pv)
+        try:
+            k2 = D.imp_priv(data, ip)
+            obs = 'ok' if D.same_private(k2, k) else 'different key'
+            exc = None
+        except Exception as e:          # pylint: disable=broad-except
+            obs, exc = 'KeyImportError', e
+        icase = dict(case, import_passphrase=row['ipv'])
+        if obs == 'different key':
+            ctx.violation(kf_sig('passval', step='different-key', **icase),
+                          f'imported as a different key: {icase}', rp)
+        elif exc is not None and not isinstance(exc, ValueError):
+            ctx.violation(kf_sig('passval', step='exception', **icase),
+                          f'import raises {type(exc).__name__}: {exc}: '
+                          f'{icase}', rp)
+        elif pimp == 'ok' and obs != 'ok':
+            ctx.violation(kf_sig('passval', step='import', **icase),
+                          f'key exported with passphrase {row["pv"]} is not '
+                          f'imported with the {row["ipv"]} passphrase '
+                          f'({exc}): {icase}', rp)
+        elif pimp != 'ok' and obs == 'ok':
+            if row['ipv'] in ('none', 'other'):
+                ctx.violation(
+                    kf_sig('passval', step='passphrase', **icase),
+                    f'key exported with passphrase {row["pv"]} is imported '
+                    f'with {"no" if row["ipv"] == "none" else "another"} '
+                    f'passphrase: {icase}', rp)
+            else:
+                ctx.divergence(f'passval: other spelling accepted, model '
+                               f'says refused: {icase}')
+    ctx.notes.append(f'passphrase values: {stats}')
+    ctx.sample({'part': 'passval', 'rows': len(rows),
+                'values': {k: (repr(v)[:30]) for k, v in
+                           D.PASS_VALUES.items()}}, limit=14)
+
+
 def encodings(ctx, D, scr, rows, kts, quick, kf_sig, only):
     """Files written by the harness's own encoder (hashlib / PyCA primitives,
     nothing from asyncssh) for every encoding choice of the table.
@@ -954,7 +1119,7 @@ def encodings(ctx, D, scr, rows, kts, quick, kf_sig, only):
         if not only.row('encoding', row):
             continue
         scheme = row['scheme']
-        if scheme == 'openssh':
+        if scheme in ('openssh', 'ecpriv'):
             kt = row['kt']
         elif scheme == 'dek':
             kt = 'ec256'
@@ -987,6 +1152,18 @@ def encodings(ctx, D, scr, rows, kts, quick, kf_sig, only):
                           f'import raises {type(exc).__name__}: {exc} '
                           f'(neither a key nor a KeyImportError) for a '
                           f'{cls} encoding: {case}', rp)
+            continue
+        if k2 is not None and not same and k2 == k and \
+                k2.public_data != k.public_data:
+            ctx.violation(
+                {'module': 'KeyFormats', 'part': 'encoding',
+                 'class': 'public-half-not-derived', 'scheme': scheme,
+                 'row': row},
+                f'{cls} encoding imports the right private key but its public '
+                f'half is wrong (public_data is {len(k2.public_data)} bytes, '
+                f'expected {len(k.public_data)}): export_public_key / '
+                f'certificates / authentication would use a wrong public '
+                f'key: {case}', rp)
             continue
         if k2 is not None and not same:
             ctx.violation(kf_sig('encoding', step='different-key', **case),
